@@ -221,7 +221,7 @@ def main() -> int:
                 if undiag:
                     vd.violation(f"dropped_without_diagnostic:{slot}", f"schemas {undiag} of {group} produced neither a class nor a diagnostic naming them", w)
             elif slot == "operation_ids":
-                if len(man.get("endpoints") or []) + sum(1 for g in group if g in diag_text) < len(group):
+                if len(man.get("endpoints") or []) + sum(1 for i in range(len(group)) if re.search(rf" /p{i}\b", diag_text)) < len(group):
                     vd.violation("dropped_without_diagnostic:operations", f"operations {group}: {len(man.get('endpoints') or [])} generated, rest not diagnosed", w)
             elif slot == "tags":
                 tags = {e["tag"] for e in man.get("endpoints") or []}
